@@ -13,7 +13,8 @@ Clauses (DESIGN.md section 6, C14):
                sat) from 350 degC to the critical point, 1|2|4 (Clausius-Clapeyron) along the saturation line
  (6) region    classifier = reference predicate, and the named region's routine accepts the state, on the
                (T, p) lattice and on the neighbours of every limit
-All tolerances are in ref/thermo.py (TOL) with the measurement behind them.
+All tolerances are in ref/thermo.py (TOL: noise-limited quantities, BAND: signed boundary jumps) with the
+measurement behind them.
 """
 import math
 import os
@@ -949,10 +950,7 @@ def finalize(rec, tier):
     u, sg, rest = R.collect(rec.notes)
     rec.notes[:] = rest
     if CAL:
-        for k in sorted(u):
-            print('CALIBRATE-U %s %r at %s' % (k, u[k][0], u[k][1]))
-        for k in sorted(sg):
-            print('CALIBRATE-S %s %r %r at %s / %s' % (k, sg[k][0], sg[k][2], sg[k][1], sg[k][3]))
+        R.print_calibration(u, sg)
     return {'measured_against_tolerance': R.evidence_of(u, sg), 'calibration_mode': CAL}
 
 
